@@ -1,6 +1,7 @@
 '''Sitemap scraper'''
 import gettext
 import logging
+import zlib
 
 import wpull.util
 from wpull.backport.logging import StyleAdapter
@@ -37,7 +38,9 @@ class SitemapScraper(SitemapReader, BaseExtractiveScraper):
                 for link in link_iter:
                     link_contexts.add(LinkContext(link, linked=True))
 
-        except (UnicodeError, self._html_parser.parser_error) as error:
+        except (UnicodeError, self._html_parser.parser_error,
+                OSError, EOFError, zlib.error) as error:
+            # Includes a gzip-compressed sitemap that is damaged
             _logger.warning(
                 _('Failed to read document at ‘{url}’: {error}'),
                 url=request.url_info.url, error=error
